@@ -11,6 +11,31 @@ class InjectedError(Exception):
     """The exception a 'raise' fault script throws from inside the residual function."""
 
 
+# the same fault with the exception types the library itself catches somewhere (a user's residual function can raise any of them)
+class InjectedLinAlgError(np.linalg.LinAlgError, InjectedError):
+    pass
+
+
+class InjectedValueError(ValueError, InjectedError):
+    pass
+
+
+class InjectedZeroDivisionError(ZeroDivisionError, InjectedError):
+    pass
+
+
+class InjectedAssertionError(AssertionError, InjectedError):
+    pass
+
+
+class InjectedRuntimeError(RuntimeError, InjectedError):
+    pass
+
+
+RAISE_KINDS = {"raise": InjectedError, "raise_linalg": InjectedLinAlgError, "raise_value": InjectedValueError, "raise_zerodiv": InjectedZeroDivisionError,
+               "raise_assert": InjectedAssertionError, "raise_runtime": InjectedRuntimeError}
+
+
 def _rng(inst, salt):
     return np.random.default_rng([int(inst.get("seed", 0)) & 0x7FFFFFFF, int(salt)])
 
@@ -65,6 +90,10 @@ def build(inst):
         S[:k, :k] = np.diag(sv)
         A = U @ S @ V.T
     b = rng.normal(size=m)
+    if inst.get("zerocol"):
+        A[:, int(_rng(inst, 17).integers(0, n))] = 0.0      # one variable has no influence on the residuals: the Jacobian is rank deficient
+    if inst.get("ascale"):
+        A *= float(inst["ascale"])                          # weakly sensitive residuals: |J| tiny while the residuals themselves are O(1)
     mag = float(inst.get("mag", 1.0))
     c = rng.normal(size=n) * mag
     kind = inst.get("prob", "nl")
@@ -106,6 +135,14 @@ def build(inst):
                 lo[j], hi[j] = c[j] - 0.25, c[j] + wu[j] + 1.0       # pushed towards the lower face, which is close
             else:
                 lo[j], hi[j] = c[j] - wl[j] - 1.0, c[j] + 0.25 + 3.0  # pushed towards the set boundary before the far upper face
+    if inst.get("corner") and (lo is None) != (hi is None):
+        # one-sided bounds: the face is close to c in the coordinates the 'target' problem pushes towards it, far away in the others
+        sg = np.where(tgt < 0, -1.0, 1.0)
+        for j in range(n):
+            if lo is not None:
+                lo[j] = c[j] - 0.25 if sg[j] < 0 else c[j] - wl[j] - 1.0
+            else:
+                hi[j] = c[j] + 0.25 if sg[j] > 0 else c[j] + wu[j] + 1.0
     if inst.get("x0atmin"):
         pass
     if inst.get("boxaway") and lo is not None and hi is not None:
@@ -262,6 +299,8 @@ def build(inst):
         up["logging.save_poisedness"] = bool(inst.get("poised", False))
     if inst.get("growing"):
         up["growing.ndirs_initial"] = max(1, min(int(inst["growing"]), int(kw.get("npt", n + 1)) - 1))
+    if inst.get("print_progress"):
+        kw["print_progress"] = True
     if inst.get("noise"):
         kw["objfun_has_noise"] = True
     if up:
@@ -292,6 +331,10 @@ def build(inst):
     if sets:
         kw["projections"] = [s["proj"] for s in sets]
     hval = (lambda x: 0.0) if h is None else (lambda x: float(h(x, *kw.get("argsh", ()))))
+    if inst.get("rscale"):
+        # finite residuals of overflow size: every sum of squares is +inf although no residual is
+        resid0, rs_ = resid, float(inst["rscale"])
+        resid = lambda x: resid0(x) * rs_
     return dict(resid=resid, kwargs=kw, x0=x0, lo=lo, hi=hi, sets=sets, hval=hval, A=A, b=b, c=c, n=n, m=m, lam=lam, reg=reg,
                 noise=float(inst.get("noise_sd", 0.0)))
 
